@@ -575,6 +575,22 @@ def check (c):
                         if v ['key'] != observe.IMP_KEY:
                             v ['key'] = 'approximate-junction-thick-wire'
                             v ['msg'] += ' [ends written with identical coordinates: worst margin %.3g]' % (ex.get ('margin') or 0.0)
+    if viol and not spec.get ('_g8') and all (str (v ['key']).split (':') [0] in ('currents', 'impedance', 'near-E', 'near-H', 'gain', observe.IMP_KEY) for v in viol) \
+       and all (v.get ('measured', np.inf) <= 4 * v.get ('allowed', 0) for v in viol if v ['key'] != observe.IMP_KEY):
+        # known finding (as in C05): on a straight, equally segmented wire pairs of pulses sit exactly on a threshold of
+        # the rule that chooses the order of the Gauss quadrature, and the last bit of the coordinates - which differs
+        # between two descriptions - decides between the 8- and the 4-point rule for a band of the matrix. Classified as
+        # that finding only if such pairs exist, the excess is small and the same descriptions agree within the stated
+        # tolerance once every integral uses the 8-point rule (experiment made on the spot)
+        if observe.threshold_pairs (gen.build (variant (spec))) > 0:
+            with observe.gauss_order_fixed ():
+                r8 = check (dict (spec, _g8 = True))
+            mon ['experiment.gauss-order-fixed'] = 1
+            if r8.get ('status') == 'held':
+                for v in viol:
+                    if v ['key'] != observe.IMP_KEY:
+                        v ['key'] = 'quadrature-order-on-threshold'
+                        v ['msg'] += ' [with the 8-point rule everywhere: worst margin %.3g]' % (r8.get ('margin') or 0.0)
     skin_all = [l for l in (spec.get ('loads') or []) if l.get ('k') in ('skin', 'ins') and 'at' not in l]
     if viol and (spec.get ('dist') or skin_all):
         # known finding: a lossy / insulated wire on a junction of three or more wires. The deviation is classified as
